@@ -144,6 +144,8 @@ class Base:
             return self.th.lit(v)
         if z3.is_expr(v):
             return v
+        if isinstance(v, VOpt) and isinstance(v.val, Sym):
+            return v.val.t          # (the caller has established / assumes that it is not None)
         raise GenError("cannot lift %r to a term" % (v,))
 
     def kind_of(self, v):
